@@ -1024,6 +1024,39 @@ def scen_C02(ctx):
                 segs.append([])
         pair(ctx, 'neighbours', i, segs, stats=g.stats, files_oracle=True)
     parallel(neighbours, range(ctx.scale(12, 80)))
+
+    # `tiny`: the smallest maps - none, one or two entries, values of 0..16 bytes (one slot of the smallest size class in the value
+    # file), also reached by deletes - closed and reopened several times, read-only sessions and sessions with one update in
+    # between; every close is compared with the model image.  (seeded change C02k: a "torn tail repair" at open cut a value file
+    # that holds exactly one 16-byte piece back to its header)
+    def tiny(i):
+        g = G.G(ctx.seed, 'C02t', i)
+        r = g.rng
+        kt = G.KTS[i % 5]
+        ks = g.key_universe(kt, 3)
+        vl = [0, 1, 5, 13, 14, 15, 16][i % 7]
+        segs = [[]]
+        cur = segs[-1]
+        cur += ['db d0 db', 'map m0 d0 %s m %s' % (kt, g.params())]
+        if i % 3 == 1:
+            cur += ['put m0 %s z9x1' % G.hx(ks[1]), 'put m0 %s z%dx2' % (G.hx(ks[0]), vl), 'del m0 %s' % G.hx(ks[1])]
+        elif i % 3 == 2:
+            cur += ['put m0 %s z%dx2' % (G.hx(ks[0]), vl), 'del m0 %s' % G.hx(ks[0]), 'put m0 %s z%dx3' % (G.hx(ks[0]), vl)]
+        else:
+            cur += ['put m0 %s z%dx2' % (G.hx(ks[0]), vl)]
+        cur += ['closeall', 'snap db']
+        for sn in range(r.randrange(2, 5)):
+            if r.random() < 0.5:
+                segs.append([])
+            cur = segs[-1]
+            cur += ['db d0 db', 'map m0 d0 %s m %s' % (kt, g.params())] + ['get m0 %s' % G.hx(k) for k in ks] + ['len m0', 'iter m0 %s' % r.choice(FLAVOURS)]
+            if sn % 2 == 1:
+                cur += r.choice([['put m0 %s z%dx7' % (G.hx(ks[2]), r.choice([0, 3, 14, 40]))], ['put m0 %s z%dx8' % (G.hx(ks[0]), r.choice([2, 14, 15, 30]))],
+                                 ['del m0 %s' % G.hx(ks[0])], ['del m0 %s' % G.hx(ks[0]), 'put m0 %s 01' % G.hx(ks[1])]])
+                cur += ['get m0 %s' % G.hx(k) for k in ks] + ['len m0']
+            cur += ['closeall', 'snap db']
+        pair(ctx, 'tiny', i, segs, stats=g.stats, files_oracle=True)
+    parallel(tiny, range(ctx.scale(21, 105)))
     parallel(lambda i: huge_case(ctx, 'C02', i), range(ctx.scale(2, 6)), workers=4)
     # re-opens at byte level: sessions re-opened with other parameters, every I/O event of the open and of the calls after it
     io_traces(ctx, 0, 0, 0, 0, ctx.scale(24, 200))
